@@ -380,6 +380,8 @@ class CallMixin:
                     v = Z(t, v.e)   # keep a narrower static class of the argument (prunes isinstance chains)
             elif t.is_smt() and not isinstance(v, Z):
                 v = self.to_z(st, v, t)
+            elif isinstance(v, Z) and v.t.kind == "tuple" and t.kind == "ref":
+                v = self.to_z(st, v, t)
             elif t.kind == "arr" and not isinstance(v, Arr):
                 v = self.seq_to_arr(st, v)
             env[p] = v
@@ -416,6 +418,10 @@ class CallMixin:
             return zbool(self.truthy(st, self.ev_spec(st, A[0])) == self.truthy(st, self.ev_spec(st, A[1])))
         if name == "ite":
             c = self.truthy(st, self.ev_spec(st, A[0]))
+            if is_true(c):
+                return self.ev_spec(st, A[1])       # decided condition: the other branch is not even evaluated
+            if is_false(c):
+                return self.ev_spec(st, A[2])
             return self.merge(st, c, self.ev_spec(st, A[1]), self.ev_spec(st, A[2]))
         if name in ("forall", "exists"):
             return self.quantifier(st, name, A)
